@@ -168,12 +168,17 @@ func (store *BaseStore[E]) createCompositeEntitySymbol(name string, first linked
 			},
 		}
 	}
+	// the cursor key is the typed set entry; the last symbol evaluates on the plain id
+	evalLast := func(tx *bbolt.Tx, key []byte) (FieldType, []byte) {
+		_, id := GetTypeAndValue(key)
+		return last.Eval(tx, id)
+	}
 	return &compositeEntitySetSymbol{
 		name:        name,
 		symbolType:  rest.GetType(),
 		chain:       iterable,
 		cursor:      nil,
-		cursorLastF: last.Eval,
+		cursorLastF: evalLast,
 	}
 }
 
